@@ -117,11 +117,13 @@ Definition known_of (ts : list tok) : string :=
 
 (* (spec of interp.run, spec of interp.trace, known class) *)
 Definition analyse (bs : bytes) (canonical : bool) : string * string * string :=
-  if negb canonical then ("-", "-", "-")
+  let anyrun := "ERR~OK:*;*;*;*" in
+  let anytrace := "ERR~OK:*;*;*;*" in
+  if negb canonical then (anyrun, anytrace, "-")
   else
     match tokenize_spec bs with
     | TokTruncDirect => ("ERR", "ERR", "truncated-direct-push")
-    | TokBad => ("-", "-", "-")
+    | TokBad => ("ERR", "ERR", "-")
     | TokOk ts =>
         if covered ts then
           match exec_script ts ([], []) with
@@ -130,7 +132,7 @@ Definition analyse (bs : bytes) (canonical : bool) : string * string * string :=
               ("OK:" +++ r +++ ";*;*", "OK:F;" +++ r +++ ";*", known_of ts)
           | None => ("ERR", "OK:E;*;*;*", known_of ts)
           end
-        else ("-", "-", "-")
+        else (anyrun, anytrace, "-")
     end.
 
 (* ---- interp.trace ---- *)
@@ -207,7 +209,9 @@ Section SVR.
                 let same := if Bool.eqb (String.eqb so "F") (String.eqb ro "O")
                                && eqp now (show_items (stack st2), show_items (alt_stack st2)) then "1" else "0" in
                 "OK:" +++ so +++ ";" +++ dec_of_N n +++ ";" +++ show_state st +++ ";" +++ dec_of_N (N.of_nat (script_index i))
+                +++ ";" +++ dec_of_N (N.of_nat (length (script_bits i)))
                 +++ ";" +++ ro +++ ";" +++ show_state st2 +++ ";" +++ dec_of_N (N.of_nat (script_index j))
+                +++ ";" +++ dec_of_N (N.of_nat (length (script_bits j)))
                 +++ ";" +++ ag +++ ";" +++ same +++ ";" +++ keeps
             end
         end
@@ -222,6 +226,22 @@ Definition impl_step_vs_run (bits : list bit) : string := svr notx nopre nover (
    are the constant Err.  What is tied here is the stack protocol before that point and the absence of panics. *)
 Definition gpre (t : unit) (_ : nat) (_ : bytes) : outcome bytes := Err.
 Definition gver (t : unit) (_ _ _ : bytes) : outcome bool := Err.
+(* interp.txsafe: real-looking signatures and keys; the driver reports only the facts the C16 theorems give for
+   every interpreter value (stepping = run, an error keeps the stacks and repeats, the alternative constructor
+   behaves identically); the model side therefore only decides whether an interpreter is constructed at all. *)
+Definition impl_txsafe (u l : bytes) (idx : N) : string :=
+  match from_bytes u, from_bytes l with
+  | Ok ub, Ok lb =>
+      if negb (idx =? 0)%N then "ERR"
+      else match from_bytes (to_bytes ub ++ to_bytes lb) with
+           | Ok _ => "OK:1;1;1;1"
+           | Err => "ERR"
+           | Panic => "PANIC"
+           end
+  | Panic, _ | _, Panic => "PANIC"
+  | _, _ => "ERR"
+  end.
+
 Definition impl_txrun (u l : bytes) (idx : N) : string :=
   match from_bytes u, from_bytes l with
   | Ok ub, Ok lb =>
@@ -237,7 +257,7 @@ Definition impl_txrun (u l : bytes) (idx : N) : string :=
 
 (* C16: whatever the script, a state or an error; stepping = run; an error keeps the stacks *)
 Definition spec_step_vs_run : string :=
-  "OK:F;*;*;*;*;*;*;*;O;*;*;*;*;*;*;-;1;1~OK:E;*;*;*;*;*;*;*;E;*;*;*;*;*;*;E1;1;1".
+  "OK:F;*;*;*;*;*;*;*;*;O;*;*;*;*;*;*;*;-;1;1~OK:E;*;*;*;*;*;*;*;*;E;*;*;*;*;*;*;*;E1;1;1".
 
 (* ------------------------------------------------------------------ *)
 Definition bits_eqb (a b : list bit) : bool := String.eqb (show_bits a) (show_bits b).
@@ -247,8 +267,8 @@ Definition with_bytes (a : string) (f : list bit -> bytes -> bool -> string) : s
   | None => "BADARG"
   | Some bs => match from_bytes bs with
                | Ok bits => f bits bs true
-               | Err => "ERR|-|-"
-               | Panic => "PANIC|-|-"
+               | Err => "ERR|ERR|-"
+               | Panic => "PANIC|ERR|-"
                end
   end.
 (* a hand-built tree is a script in the sense of C14 only when it is what the parser makes of
@@ -279,6 +299,11 @@ Definition run (op : string) (args : list string) : string :=
   | "interp.txrun", [u; l; n] =>
       match expand u, expand l, N_of_dec n with
       | Some ub, Some lb, Some idx => out3 (impl_txrun ub lb idx) (spec_step_vs_run +++ "~ERR") "-"
+      | _, _, _ => "BADARG"
+      end
+  | "interp.txsafe", [u; l; n; _] =>
+      match expand u, expand l, N_of_dec n with
+      | Some ub, Some lb, Some idx => out3 (impl_txsafe ub lb idx) "OK:1;1;1;1~ERR" "-"
       | _, _, _ => "BADARG"
       end
   | _, _ => "BADOP"
